@@ -126,7 +126,7 @@ def forms() -> List[Form]:
                       T.disjunction([HplBinaryOperator('=', HplVarReference('@q'), HplLiteral('1', 1)), 'or', L[0]])))(q), [BOOL], BOOL,
                       children=lambda e: [e.condition.operand2]))
     for f, overloads in FUNCTIONS.items():
-        arities = sorted({len(ps) for ps, var, r in overloads} | ({3} if any(var for _, var, _ in overloads) else set()))
+        arities = sorted({len(ps) for ps, var, r in overloads} | ({3, 4, 5} if any(var for _, var, _ in overloads) else set()))
         for n in arities:
             def accept(f=f, n=n, overloads=overloads):
                 def acc(terms):
@@ -201,6 +201,8 @@ def run_form(form: Form, lemmas=('sound', 'complete', 'exact', 'pure')) -> Lemma
             parent, lv, stored = val
             claims['sound'] = acc
             ex = []
+            if form.children and len(stored) != len(terms):
+                ex.append(z3.BoolVal(False))  # a child was dropped or duplicated
             if form.result is not None:
                 ex.append(_t(parent.data_type) == bv(form.result))
             if form.children and form.narrows:
@@ -280,6 +282,8 @@ def concrete_replay(form: Form, masks: List[int], lemma: str) -> Optional[str]:
         if raised is not None:
             return None
         stored = form.children(parent) if form.children else []
+        if form.children and len(stored) != len(masks):
+            return f'{form.name}: {len(masks)} children given, {len(stored)} stored'
         got = [s.data_type.value for s in stored]
         want = []
         for i, (m, p) in enumerate(zip(masks, form.params)):
